@@ -274,7 +274,7 @@ def run_case(c):
 def part_a(rep, tier):
     # (the last base: three levels with two sweeps per visit on the fine and on the MIDDLE level - the only place where a
     # level that carries a FAS correction is swept more than once on the way down and on the way up)
-    bases = [{}, {'L': 2, 'predict': 'fine_only'}, {'L': 2, 'P': 3, 'predict': 'pfasst_burnin'}, {'L': 3, 'nsweeps': 2, 'predict': 'fine_only'}]
+    bases = [{}, {'L': 2, 'predict': 'fine_only'}, {'L': 2, 'P': 3, 'predict': 'pfasst_burnin'}, {'L': 3, 'nsweeps': 2, 'predict': 'fine_only'}, {'P': 3, 'quad_type': 'LOBATTO'}]  # the last base: single-level multi-step block on a rule with the left end point as node (a later step holds a node value at the interval start that differs from the initial value it has just received)
     radius = 1 if tier == 'quick' else 2
     cases, seen = [], set()
     for b in bases:
